@@ -170,6 +170,15 @@ class Ctx:
                                timeout=timeout, cwd=self.scratch)
         except subprocess.TimeoutExpired:
             raise Infra("harness mode %s timed out after %ds" % (mode, timeout))
+        if p.returncode != 0 and "VERIF_PAR" not in env and re.search(r"concurrent map (writes|read|iteration)|DATA RACE", p.stderr):
+            # the code under test is not re-entrant (shared mutable state): commands are then run one at a time,
+            # the way the program is really used, so that the defect shows as a disagreement and not as a crash of the driver
+            log("[drv] %s: concurrent access inside the code under test; re-running sequentially" % mode)
+            env["VERIF_PAR"] = "1"
+            try:
+                p = subprocess.run([exe, "-test.run", "^$"], env=env, capture_output=True, text=True, timeout=timeout * 4, cwd=self.scratch)
+            except subprocess.TimeoutExpired:
+                raise Infra("harness mode %s timed out (sequential re-run)" % mode)
         if p.returncode != 0:
             err = p.stderr if len(p.stderr) < 6000 else p.stderr[:2500] + "\n[...]\n" + p.stderr[-2500:]
             ex = Infra("harness mode %s failed (rc=%d):\n%s\n%s" % (mode, p.returncode, p.stdout[-2000:], err))
@@ -252,6 +261,7 @@ class Ctx:
         jl = []
         tail = []
         ndump = 0
+        completed = False
         dumpf = open(dump_path, "a") if dump_path else None
         with open(outp, errors="replace") as f:
             for line in f:
@@ -270,6 +280,8 @@ class Ctx:
                 tail.append(line)
                 if len(tail) > 400:
                     tail.pop(0)
+                if line.startswith("Model checking completed. No error has been found."):
+                    completed = True
                 m = re.match(r"(\d+) states generated, (\d+) distinct states found", line)
                 if m:
                     gen, dist = int(m.group(1)), int(m.group(2))
@@ -286,7 +298,7 @@ class Ctx:
         if dumpf:
             dumpf.close()
         txt = "".join(tail)
-        ok = ("Model checking completed. No error has been found." in txt) or (simulate and rc == 0 and not violated and not errors)
+        ok = completed or (simulate and rc == 0 and not violated and not errors)
         run = dict(module=module, cfg=cfg, generated=gen, distinct=dist, wall_s=round(wall, 1), ok=bool(ok),
                    violated=violated, label=label or cfg)
         self.tlc_runs.append(run)
@@ -534,3 +546,27 @@ def binding_selftest(ctx, module, cfg, trace_path, corruptions):
             raise Infra("binding self-test %s: no recorded trace could be corrupted" % tag)
         done.append(tag)
     ctx.cov["binding_selftests_rejected"] = ctx.cov.get("binding_selftests_rejected", []) + done
+
+
+def vacuity_check(ctx, module, cfg, expect_zero=(), workers=4, heap="2g", timeout=900):
+    """DESIGN 3.6: run the configuration once with -coverage 1; every action of the module (the operators TLC
+    lists as `<Name line .. of module M>: generated:distinct`) must have been taken at least once, except those
+    named in expect_zero (actions of the other implementation variant).  A never-taken action means the
+    properties were not exercised there: exit 2, not a pass."""
+    r = ctx.tlc(module, cfg, workers=workers, heap=heap, timeout=timeout, coverage=True, label="coverage / vacuity " + cfg)
+    ctx.tlc_runs.pop()
+    if not r["ok"]:
+        raise Infra("coverage run of %s failed:\n%s" % (cfg, r["out"][-2000:]))
+    counts = {}
+    for line in open(r["outfile"], errors="replace") if os.path.exists(r["outfile"]) else r["out"].splitlines():
+        m = re.match(r"<(\w+) line \d+, col \d+ to line \d+, col \d+ of module (\w+)>: (\d+):(\d+)", line)
+        if m:
+            counts[m.group(1)] = counts.get(m.group(1), 0) + int(m.group(3))
+    if not counts:
+        raise Infra("no coverage information from TLC for " + cfg)
+    # (stuttering steps of finished runs - Done / Terminated - generate no state and are always reported as 0)
+    never = sorted(a for a, n in counts.items() if n == 0 and a not in expect_zero and a not in ("Done", "Terminated"))
+    ctx.cov.setdefault("vacuity", {})[cfg] = dict(actions=counts, never_taken=never)
+    if never:
+        raise Infra("vacuity: actions never taken in %s: %s" % (cfg, ", ".join(never)))
+    return counts
